@@ -43,24 +43,36 @@ def setManager (h : Hexital F) (key : String) (m : Manager F) : Hexital F :=
 /-- `CandleManager.name` of the default manager -/
 def defaultManagerName (h : Hexital F) (tfName : Option String) : String := tfName.getD defaultKey
 
-/-- attach one member (`_validate_indicators`, second loop) -/
-def attach (h : Hexital F) (m : Member F) : PyM (Hexital F) :=
+/-- the candles a NEW member manager is built from (`_validate_indicators`).  `src = some cs`: called from the
+constructor with the candles AS GIVEN to it (`source_candles`, a deep copy taken before the default manager
+collapses / converts / trims them); `src = none`: called from `add_indicator` – a deep copy of the default
+manager's candles, handed over RAW (`recover_clean_values`, `clean_values = {}`, `reset_candle`: every manager
+converts its own) when the member's timeframe differs from the default manager's own -/
+def attachRaw (src : Option (List (Candle F))) (h : Hexital F) (m : Member F) : PyM (List (Candle F)) :=
+  match src with
+  | some cs => pure cs
+  | none => do
+    let dm ← h.manager defaultKey
+    pure (if m.tfName == h.tfName then dm.candles
+          else dm.candles.map fun c => ({ c.recoverClean with clean := none } : Candle F).reset)
+
+/-- attach one member (`_validate_indicators`, second loop); `src = some cs`: from the constructor with
+`source_candles`, `src = none`: from `add_indicator` -/
+def attachFrom (src : Option (List (Candle F))) (h : Hexital F) (m : Member F) : PyM (Hexital F) :=
   match m.tfName with
   | none => .ok { h with indicators := dset m.tree.name { tree := m.tree, mgrKey := defaultKey } h.indicators }
   | some tf =>
     if dhas tf h.managers then
       .ok { h with indicators := dset m.tree.name { tree := m.tree, mgrKey := tf } h.indicators }
     else do
-      let dm ← h.manager defaultKey
-      -- a new manager over a deep copy of the default manager's candles, handed over RAW
-      -- (`recover_clean_values`, `clean_values = {}`, `reset_candle`): every manager converts its own
       let cfg : MgrCfg := { h.cfg with tf := m.tfSecs }
-      -- (only when the member's timeframe differs from the default manager's own)
-      let raw := if m.tfName == h.tfName then dm.candles
-        else dm.candles.map fun c => ({ c.recoverClean with clean := none } : Candle F).reset
+      let raw ← attachRaw src h m
       let nm ← Manager.init cfg raw
       return { h with managers := dset tf nm h.managers,
                       indicators := dset m.tree.name { tree := m.tree, mgrKey := tf } h.indicators }
+
+/-- `add_indicator` path of `_validate_indicators` (no `source_candles`) -/
+def attach (h : Hexital F) (m : Member F) : PyM (Hexital F) := attachFrom none h m
 
 /-- `valid_indicators[name] = indicator`: one entry per name, first position, last value -/
 def dedupe (members : List (Member F)) : List (Member F) :=
@@ -70,7 +82,8 @@ def init (cfg : MgrCfg) (tfName : Option String) (cs : List (Candle F)) (members
     PyM (Hexital F) := do
   let dm ← Manager.init cfg cs
   let h : Hexital F := { cfg := cfg, tfName := tfName, managers := [(defaultKey, dm)], indicators := [] }
-  (dedupe members).foldlM attach h
+  -- members with their own timeframe are built from the candles as given (`source_candles`)
+  (dedupe members).foldlM (attachFrom (some cs)) h
 
 /-- `add_indicator` (no calculation) -/
 def addIndicators (h : Hexital F) (members : List (Member F)) : PyM (Hexital F) :=
